@@ -2,22 +2,12 @@ From Coq Require Import String List ZArith NArith.
 From Circ Require Import Lib.Obs Model.HttpResponse.
 Import ListNotations.
 
-(* run-length form of long writes, so that the harness can state multi-kilobyte bodies compactly;
-   the harness encodes the observed bytes the same way (maximal runs) *)
-Fixpoint rle (l : list N) : list (N * N) :=
-  match l with
-  | [] => []
-  | x :: r =>
-      match rle r with
-      | (y, k) :: t => if N.eqb x y then (y, N.succ k) :: t else (x, 1%N) :: (y, k) :: t
-      | [] => [(x, 1%N)]
-      end
-  end.
+(* A write event is compared by length and a polynomial checksum, so that the generated case files stay
+   small (the harness computes the same function over the observed bytes). *)
+Definition cksum (w : list N) : N :=
+  fold_left (fun a x => (a * 257 + x + 1) mod 4294967291)%N w 7%N.
 
-Definition Tw (w : list N) : T :=
-  if Nat.ltb 1000 (length w)
-  then Tl [Tn (-2)%Z; Tlist (fun p => Tl [TN (fst p); TN (snd p)]) (rle w)]
-  else Tb w.
+Definition Tw (w : list N) : T := Tl [Tnat (length w); TN (cksum w)].
 
 Definition repN {A} (n : N) (l : list A) : list A := rep (N.to_nat n) l.
 
@@ -30,3 +20,13 @@ Definition obs_resp (c : cfg) : T :=
 
 (* one connection: the responses to a sequence of requests *)
 Definition obs_seq (cs : list cfg) : T := Tlist obs_resp cs.
+
+(* the model's independent client run on bytes the real server wrote (ties [parse] to http.client) *)
+Definition obs_parse (p : bool * list N) : T :=
+  match parse (fst p) (snd p) with
+  | Some (r, rest) => Tl [TN (p_status r); Tb (p_body r); Tbool (p_close r); Tnat (length rest)]
+  | None => Tl []
+  end.
+
+Definition obs_case (cs : list cfg) (ps : list (bool * list N)) : T :=
+  Tl [obs_seq cs; Tlist obs_parse ps].
